@@ -535,7 +535,9 @@ func (e *Enc) loopSpec(fr *Frame, li *LoopInfo) *LoopSpec {
 func (e *Enc) loopHeader(fr *Frame, li *LoopInfo, guard T, st *State) (T, *State) {
 	spec := e.loopSpec(fr, li)
 	if spec == nil || (len(spec.Invariants) == 0 && !spec.Body) {
-		panic(unsupported(fmt.Sprintf("loop %d of %s has no invariant", li.ord, fr.fn.Name())))
+		// no invariant given: the loop is abstracted by `true` (everything it writes is havoc'd)
+		e.approximate(fmt.Sprintf("loop %d of %s has no invariant: abstracted by havoc of what it writes", li.ord, fr.fn.Name()))
+		spec = &LoopSpec{Ord: li.ord}
 	}
 	hdr := li.header
 	// 1. invariant holds on entry
@@ -839,7 +841,10 @@ func (e *Enc) backEdge(fr *Frame, from, hdr *ssa.BasicBlock, guard T, st *State)
 		sc.oldOver = nil
 		sc.oldHdr = hdr
 		for _, c := range spec.BodyEns {
-			t := e.evalBool(sc, c.E)
+			t, ok := e.evalClauseOpt(fr, sc, c)
+			if !ok {
+				continue
+			}
 			e.oblige("body-post", fmt.Sprintf("loop%d:%s", li.ord, clabel(c)), guard, t, c.Src, pos)
 		}
 	}
@@ -874,7 +879,10 @@ func (e *Enc) exitEdge(fr *Frame, from, to *ssa.BasicBlock, guard T, st *State) 
 	sc.old = fr.entrySt
 	sc.oldHdr = li.header
 	for _, c := range spec.ExitEns {
-		t := e.evalBool(sc, c.E)
+		t, ok := e.evalClauseOpt(fr, sc, c)
+		if !ok {
+			continue
+		}
 		e.oblige("body-exit", fmt.Sprintf("loop%d:%s", li.ord, clabel(c)), guard, t, c.Src, from.Instrs[len(from.Instrs)-1].Pos())
 	}
 }
@@ -883,4 +891,25 @@ func (e *Enc) markWrite(key string) {
 	if e.writes != nil {
 		e.writes[key] = true
 	}
+}
+
+// evalClauseOpt evaluates a clause; a clause that mentions a ghost snapshot (`at stmt ... let`)
+// whose cut has not been passed on the way to this edge does not apply there and is skipped.
+func (e *Enc) evalClauseOpt(fr *Frame, sc *Scope, c *Clause) (t T, ok bool) {
+	defer func() {
+		if r := recover(); r != nil {
+			if u, isU := r.(unsupported); isU && fr.contract != nil {
+				for _, cs := range fr.contract.Cuts {
+					for _, l := range cs.Lets {
+						if string(u) == "unknown identifier in contract: "+l.Label {
+							t, ok = True, false
+							return
+						}
+					}
+				}
+			}
+			panic(r)
+		}
+	}()
+	return e.evalBool(sc, c.E), true
 }
